@@ -3,7 +3,7 @@ import itertools, re
 from vlib import core
 
 PID = "C09"
-ENTRIES = {"c09api": ("Shell.Entry", "entry_c09api"), "c09sh": ("Shell.Entry", "entry_c09sh")}
+ENTRIES = {"c09api": ("Scope.Entry", "entry_c09api"), "c09sh": ("Scope.Entry", "entry_c09sh")}
 TRUSTED = [
     "modelled, not verified: brush-core/src/env.rs (scope stack, the four lookup policies, unset/tombstone, add, "
     "update_or_add*, iter_exported), variables.rs (assign, assign_at_index, unset_index, conversions, transforms), "
